@@ -753,8 +753,12 @@ func (s *Store[K, V]) maintenance() {
 				s.maintenanceTicker.Stop()
 				return
 			case <-s.maintenanceTicker.C:
-				s.policyMu.Lock()
+				// keep the cached clock fresh even while the policy lock is
+				// held for long; the next tick catches up a skipped advance
 				s.timerwheel.clock.RefreshNowCache()
+				if !s.policyMu.TryLock() {
+					continue
+				}
 				if s.closed {
 					s.policyMu.Unlock()
 					return
